@@ -45,12 +45,20 @@ fn filter_comment(r: &mut Rng, shapes: &mut Vec<&'static str>, global_ok: bool) 
                 "-- selene: permit(unused_variable)\n",
                 "-- ordinary comment\n",
                 "--selene:allow(unused_variable)extra\n",
+                "--## selene: allow(unused_variable)\n",
+                "-- ## selene: deny(undefined_variable)\n",
+                "--#  # selene: allow(shadowing)\n",
             ]))
             .to_string()
         }
         4 => {
             shapes.push("spaces");
-            format!("--{hash}   selene :  {var} ( {} )\n", lint(r))
+            if r.chance(1, 2) {
+                format!("--{hash}   selene :  {var} ( {} )\n", lint(r))
+            } else {
+                // tabs and a line break inside a block comment count as whitespace as well
+                format!("--[[{hash}\tselene:\t{var}(\n\t{}\t)\n]]\n", lint(r))
+            }
         }
         _ => {
             shapes.push(if global { "global" } else { "inline" });
